@@ -165,6 +165,28 @@ def check(ctx, fname, sname, sp, f, tags, rng):
                             ctx.violation(comp, cfg, 'conjugate-inconsistent', symptom='fenchel-young-violated', gap=float(gap), fx=float(fx), fy=float(fy),
                                           scales=[sx, sy])
                             break
+            # just outside dom f*: y = (1 + delta) grad f(x) for delta = 1e-10 .. 1e-6 against x scaled by 1e9.  Where grad f(x) lies
+            # on the boundary of dom f* (norms: unit ball of the dual norm) f*(y) must be +inf - a feasibility tolerance in the
+            # conjugate shows as f(t x) + f*(y) < <t x, y> by t * delta * f(x); where y stays inside dom f* the inequality
+            # holds for a correct conjugate at any scale
+            if not any(t in tags for t in ('kl', 'klcc', 'exp', 'composed', 'nograd')):
+                try:
+                    xb = base_point(sp, rng, tags)
+                    y0 = f.gradient(xb)
+                    for delta in (1e-10, 1e-8, 1e-6):
+                        with np.errstate(all='ignore'):
+                            xt = 1e9 * xb
+                            yd = (1 + delta) * y0
+                            fx, fy, ip = f(xt), fc(yd), rinner(xt, yd)
+                        if np.isfinite(fx) and np.isfinite(fy) and np.isfinite(ip):
+                            n += 1
+                            gap = ip - fx - fy
+                            if gap > 1e-12 * max(1, abs(fx), abs(fy), abs(ip)):
+                                ctx.violation(comp, cfg, 'conjugate-inconsistent', symptom='fenchel-young-violated', gap=float(gap), fx=float(fx), fy=float(fy),
+                                              where='y = (1 + %g) grad f(x), x scaled by 1e9' % delta)
+                                break
+                except (NotImplementedError, odl.OpNotImplementedError, AttributeError):
+                    pass
             ctx.ev('fenchel-young', n)
         except (NotImplementedError, odl.OpNotImplementedError):
             ctx.skip('conjugate has no values')
